@@ -103,6 +103,7 @@ def base_commit_of(patch):
 
 
 _BASE_KEYS = {}
+_BASE_COUNTS = {}
 
 
 def violation_keys(lines):
@@ -114,6 +115,21 @@ def violation_keys(lines):
     return keys
 
 
+def violation_counts(lines):
+    """key -> number of cases that showed it ('(xN)' in the VIOLATION line, 1 if absent)"""
+    import re
+    out = {}
+    for l in lines:
+        if l.startswith('VIOLATION') and '#' in l:
+            k = l.split('#', 1)[1].strip()
+            m = re.match(r'^(.*?) \(x(\d+)\)', k.split(': ')[0] if ' (x' in k.split(': ')[0] else '')
+            if m:
+                out[m.group(1)] = int(m.group(2))
+            else:
+                out[k.split(': ')[0]] = 1
+    return out
+
+
 def run_check(c, tier, d):
     env2 = dict(os.environ, LOMOND_SRC=d, VERIF_EVIDENCE_DIR=os.path.join(d, '_evidence'), VERIF_REPLAY_DIR=os.path.join(d, '_replays'))
     t0 = time.time()
@@ -123,6 +139,18 @@ def run_check(c, tier, d):
 
 
 def evaluate(sdir, tier, all_checks=False):
+    res = _evaluate(sdir, tier, all_checks, force_base=False)
+    if res.get('patch_applied') and not res.get('caught') and not res.get('judged_on') and res.get('pytest', '').startswith('ok'):
+        # applies to HEAD but leaves no trace there: a later repair may have rewritten the code around it (the
+        # reversal of F3 is a no-op once F12 has replaced that block) - judge it where it was written
+        res2 = _evaluate(sdir, tier, all_checks, force_base=True)
+        if res2.get('patch_applied'):
+            res2['on_head'] = 'applies to HEAD but is not reported there (rc %s)' % res['checks'][res['property']]['rc']
+            return res2
+    return res
+
+
+def _evaluate(sdir, tier, all_checks=False, force_base=False):
     """The change is applied (3-way) to /repo's current HEAD.  A change that overlaps a later repair of /repo does
     not apply there any more: it is then judged on the commit it was written for, differentially - it counts as
     reported when the check prints a violation key on <that commit + change> which it does not print on <that
@@ -152,7 +180,7 @@ def evaluate(sdir, tier, all_checks=False):
             neutral = (rc1 == 0 or rc0 != 0)
             if neutral:
                 res['on_head'] = 'applies, but its demonstration no longer discriminates there (clean rc %s, changed rc %s)' % (rc0, rc1)
-        if rc or outg.strip() or neutral:
+        if rc or outg.strip() or neutral or force_base:
             shutil.rmtree(d, ignore_errors=True)
             base = base_commit_of(patch)
             if base is None:
@@ -181,7 +209,9 @@ def evaluate(sdir, tier, all_checks=False):
         if base is not None:
             for c in checks:
                 if (base, c, tier) not in _BASE_KEYS:
-                    _BASE_KEYS[(base, c, tier)] = violation_keys(run_check(c, tier, d)['lines'])
+                    _bl = run_check(c, tier, d)['lines']
+                    _BASE_KEYS[(base, c, tier)] = violation_keys(_bl)
+                    _BASE_COUNTS[(base, c, tier)] = violation_counts(_bl)
         sh(['git', 'stash', 'pop', '-q'], cwd=d)
         res['pytest'] = pytest_summary(d)
         if os.path.exists(demo):
@@ -192,6 +222,12 @@ def evaluate(sdir, tier, all_checks=False):
             res['checks'][c] = run_check(c, tier, d)
             if base is not None:
                 new = sorted(violation_keys(res['checks'][c]['lines']) - _BASE_KEYS[(base, c, tier)])
+                # the same mechanism key as a defect that was still in the tree at that commit: then the NUMBER of
+                # cases showing it decides (at least three times as many, and at least five more)
+                cnt, bcnt = violation_counts(res['checks'][c]['lines']), _BASE_COUNTS[(base, c, tier)]
+                for k_, n_ in cnt.items():
+                    if k_ in bcnt and n_ >= 3 * bcnt[k_] and n_ >= bcnt[k_] + 5:
+                        new.append('%s (x%d against x%d on the commit alone)' % (k_, n_, bcnt[k_]))
                 res['checks'][c]['new_keys'] = new
                 res['checks'][c]['base_keys'] = sorted(_BASE_KEYS[(base, c, tier)])
         if base is None:
